@@ -3,7 +3,7 @@ from __future__ import annotations
 
 import ast
 
-from ..absint import Cls, Const, Fn, Foreign, Interp, Obj, Term, explore, is_call, run_method, show
+from ..absint import Cls, Const, Fn, Foreign, Interp, Obj, Term, explore, is_call, run_method, show, subterms
 from ..model import Undecided, walk_no_nested
 from .common import receive_loops
 from .routermodel import World, router_cls, run_router
@@ -177,6 +177,25 @@ def rule_close(ctx):
             if conds:
                 ok = False
         ctx.check(ok, "C18.CLOSE", f.short, "unregister_client(self) on every path", "close() does not unregister the connection from the router on every path", fi=f, text="unregister")
+        # whatever close() makes the unregistration depend on must be fixed at construction: a method that overwrites it
+        # (e.g. 'detaching' a failing peer by clearing the router reference) leaves the connection registered for ever
+        guards = set()
+        for pa in paths:
+            for e in pa.assumes():
+                for t in subterms(e.data["cond"]):
+                    if isinstance(t, Term) and t.op == "attr" and show(t.args[0]) == "self":
+                        guards.add(t.args[1])
+        writers = []
+        for k in ci.mro:
+            if not k.module.name.startswith("indi."):
+                continue
+            for m_ in list(k.methods.values()) + list(k.setters.values()):
+                if m_.name == "__init__":
+                    continue
+                for n_ in ast.walk(m_.node):
+                    if isinstance(n_, ast.Attribute) and isinstance(n_.ctx, (ast.Store, ast.Del)) and n_.attr in guards and isinstance(n_.value, ast.Name) and n_.value.id == "self":
+                        writers.append((m_, n_.attr))
+        ctx.check(not writers, "C18.CLOSE", f.short + " guard", f"close() depends on {sorted(guards) or 'nothing'}, assigned only at construction", f"close() unregisters only while {sorted(guards)} hold(s), but {[(m_.short, a_) for m_, a_ in writers][:2]} overwrite(s) it after construction: once that ran, the ended connection stays registered and keeps its BLOB settings", fi=writers[0][0] if writers else f, text="guard-overwritten")
         if "tcp" in ci.module.name:
             okw = all(any(is_call(e.data["term"], method="close") and "writer" in show(e.data["term"]) for e in pa.events if e.kind == "call") for pa in paths)
             ctx.check(okw, "C18.CLOSE", f.short + " writer", "the stream writer is closed", "close() does not close the stream writer", fi=f, text="writer")
